@@ -577,6 +577,8 @@ impl<C: CryptoKey> DecryptWriteBackend for DecryptBackend<C> {
     }
 
     fn process_data(&self, data: &[u8]) -> RusticResult<(Vec<u8>, u32, Option<NonZeroU32>)> {
+        #[cfg(feature = "verif-hooks")]
+        crate::verif::yield_point("decrypt.process_data");
         let (data_encrypted, data_len, uncompressed_length) = self.encrypt_data(data)?;
 
         self.very_data(&data_encrypted, uncompressed_length, data)?;
